@@ -55,6 +55,7 @@ def pool_task(args):
     order = list(range(len(specs)))
     rng.shuffle(order)
     budget = 0
+    hung = 0
     for si in order:
         if all(len(cand[c]) >= 4 * per_class for c in PLAIN_CLASSES if c != "raising") and budget > 400:
             break
@@ -75,6 +76,8 @@ def pool_task(args):
             add("rejecting", b0)
         elif o["k"] == "raised" and o["exc"] != "Timeout":
             add("raising", b0)
+        elif o["k"] == "raised":
+            hung += 1
     tries = 0
     while len(cand["invalid"]) < 4 * per_class and tries < 4000:
         tries += 1
